@@ -278,6 +278,9 @@ def c06(sc, req, path):
             for j, t in enumerate(trs):
                 if t.wellformed:
                     yield refute('exit_messages_positive', legal + [t.amount <= 0], order=ns, msg_index=j)
+                    # a bank send of a restricted marker coin (or a marker transfer of an ordinary coin) is refused by the chain: the exit would fail
+                    deliverable = z3.Not(restricted(t.denom)) if t.kind == 'bank' else restricted(t.denom)
+                    yield refute('exit_messages_deliverable', legal + [z3.Not(deliverable)], order=ns, msg_index=j, mech=t.kind)
 
 
 # ---------------------------------------------------------------- C08 convertible asks
@@ -1339,6 +1342,7 @@ def c05_history(sc, trail):
 
 
 HISTORY_OBLIGATIONS = {'C01': c01_history, 'C05': c05_history}
+STEP_PROPS_ON_REACHED_STATES = {'C06': c06}        # per-operation part only (the Inv-preservation half of C06 is about arbitrary Inv states)
 
 
 def with_inv_establishment(fn):
